@@ -746,7 +746,7 @@ RCP<const Set> Naturals0::set_complement(const RCP<const Set> &o) const
     }
     if (is_a<UniversalSet>(*o) or is_a<Integers>(*o) or is_a<Rationals>(*o)
         or is_a<Reals>(*o) or is_a<Complexes>(*o)) {
-        return make_rcp<const Complement>(o, naturals());
+        return make_rcp<const Complement>(o, naturals0());
     }
     return SymEngine::set_complement_helper(rcp_from_this_cast<const Set>(), o);
 }
